@@ -224,9 +224,10 @@ fn move_tables(
         &opts.visible_seqno,
     )?;
 
+    // NOTE: The new version is already installed, so a failure to remove obsolete version files
+    // must not be reported as a failure of the compaction (they are retried by the next maintenance)
     if let Err(e) = version_history_lock.maintenance(&opts.config.path, opts.mvcc_gc_watermark) {
-        log::error!("Manifest maintenance failed: {e:?}");
-        return Err(e);
+        log::warn!("Manifest maintenance failed: {e:?}");
     }
 
     Ok(())
@@ -565,11 +566,11 @@ fn merge_tables(
         .hidden_set_mut()
         .show(payload.table_ids.iter().copied());
 
-    version_history_lock
-        .maintenance(&opts.config.path, opts.mvcc_gc_watermark)
-        .inspect_err(|e| {
-            log::error!("Manifest maintenance failed: {e:?}");
-        })?;
+    // NOTE: The new version is already installed, so a failure to remove obsolete version files
+    // must not be reported as a failure of the compaction (they are retried by the next maintenance)
+    if let Err(e) = version_history_lock.maintenance(&opts.config.path, opts.mvcc_gc_watermark) {
+        log::warn!("Manifest maintenance failed: {e:?}");
+    }
 
     drop(version_history_lock);
     drop(compaction_state);
@@ -640,9 +641,10 @@ fn drop_tables(
         &opts.visible_seqno,
     )?;
 
+    // NOTE: The new version is already installed, so a failure to remove obsolete version files
+    // must not be reported as a failure of the compaction (they are retried by the next maintenance)
     if let Err(e) = version_history_lock.maintenance(&opts.config.path, opts.mvcc_gc_watermark) {
-        log::error!("Manifest maintenance failed: {e:?}");
-        return Err(e);
+        log::warn!("Manifest maintenance failed: {e:?}");
     }
 
     drop(version_history_lock);
